@@ -330,10 +330,11 @@ def gen_cases(ctx):
             if rng.random() < 0.3:  # grouped operands
                 word = "object-group" if platform == "ios" else "addrgroup"
                 side = rng.choice(["a", "b", "ab"])
+                same_name = rng.random() < 0.3  # two groups of one name (two devices, or a copy that was edited)
                 if "b" in side:
                     members = [cb] + [derive(rng, cb)[0] for _ in range(rng.randint(0, 3))]
                     rng.shuffle(members)
-                    case["b"] = f"{word} GB"
+                    case["b"] = f"{word} {'GA' if same_name else 'GB'}"
                     case["b_items"] = [spell(rng, m, platform, "Address") for m in members]
                 if "a" in side:
                     members = [ca] + [derive(rng, ca)[0] for _ in range(rng.randint(0, 2))]
